@@ -9,9 +9,11 @@ CFG = dict(
                    "in-memory sort returning a sorted permutation, both outputs of the transliterated sorter are the sorted "
                    "key-deduplication of the input (keys strictly ascending, one row per distinct key, each an input row with "
                    "the removed columns dropped and the key intact); C19_outputs_agree (block for block); C19_cleanup (every "
-                   "AddRow/Reset/Close history); model tied to pkg/sorter by differential execution of SortedBlocks and "
+                   "AddRow/Reset/Close history); C19_reuse_is_fresh + C19_reuse_blocks/_rows (one sorter reused for several tables with "
+                   "Reset, SetColumns and PK changing between uses gives, for every use, the outputs of a fresh sorter = the sorted "
+                   "key-deduplication of that use's table); model tied to pkg/sorter by differential execution of SortedBlocks and "
                    "SortedRows (exhaustive small scope with every partition + random + histories, temp-dir listing).",
-        level_note="Theorems are about coq/model/Sorter.v (hand transliteration of AddRow, the two merge loops, pkIsDifferent, "
+        level_note="Theorems are about coq/model/Sorter.v (hand transliteration of AddRow, the two merge loops, pkIsDifferent, pkIndices recomputed from the current Columns, "
                    "Close, Reset); rows are lists of cells (byte encodings are C06); tie = correspondence harness; "
                    "the in-memory sort is a hypothesis (sorted permutation), inhabited by the extracted insertion sort.",
         rule="witnesses of the repaired defects; exhaustive: all sequences of <=3 (quick) / <=4 (thorough) rows over a 2-column "
@@ -19,7 +21,9 @@ CFG = dict(
              "column removed or not; random: 0..800 rows (block-boundary sizes 254..256, 509..511), 1..5 columns, every key "
              "subset/order incl. none, tie-heavy key alphabets incl. empty/NUL/0xff cells, duplicate keys inserted at random "
              "positions, run sizes 1/64/4096/huge/random, removed non-key columns; 65535/65536/70000-byte cells; AddRow/Reset/"
-             "Close histories. distinct = distinct case text; non-trivial = at least two rows (or a history)",
+             "Close histories; one sorter reused for 2..4 tables (Reset, SetColumns with 1..4 columns, key none/subset changing between uses, "
+             "0..270 rows, removed columns, either output, all run sizes; witnesses: key-less 2 columns then key-less 3 columns agreeing on "
+             "the first two, then keyed, then narrower). distinct = distinct case text; non-trivial = at least two rows (or a history)",
         trusted=["row = list of cells, block = list of rows (StrList/block byte codecs are C06's obligation; the harness decodes "
                  "blocks with objects.ReadBlockFrom)",
                  "rows whose key occurs with two different contents inside ONE run are compared by key only (survivor depends "
